@@ -93,6 +93,7 @@ class Interp:
         self.draws = []           # (method, receiver AV, node, mod, where)
         self.unresolved = []
         self.cb_calls = []
+        self.call_log = []        # (qualname, {param: AV at entry}, result)
         self.cond = 0
         self.weak = 0
         self.fresh_n = 0
@@ -208,6 +209,7 @@ class Interp:
                     env[name] = self.eval_default(fn, name, defaults[name])
                 else:
                     env[name] = TOP('missing-arg')
+            args0 = dict(env)
             body = fn.node.body
             split = (self.opts.get('split') or {}).get(fn.qualname)
             if split and not any((fn.qualname, t) in (self.opts.get('assume')
@@ -251,7 +253,10 @@ class Interp:
             hook = self.trace_hooks.get(fn.qualname)
             if hook:
                 hook(self, fn, outs)
-            return self.join_returns(rets)
+            res = self.join_returns(rets)
+            if len(self.call_log) < 20000:
+                self.call_log.append((fn.qualname, args0, res))
+            return res
         finally:
             self.stack.pop()
 
@@ -597,7 +602,13 @@ class Interp:
             if key[0] == 'order':
                 # comparison of two integer names under an assumed ordering
                 from .rules_formula import _eval_cmp
-                a, b = key[1], key[2]
+                from . import roles as _roles
+                fn_ = self.prog.func(where) if hasattr(self.prog, 'func') \
+                    else None
+                a = _roles.resolve(fn_, key[1]) if fn_ else key[1]
+                b = _roles.resolve(fn_, key[2]) if fn_ else key[2]
+                if a is None or b is None:
+                    continue
                 env = {'lt': {a: 1, b: 2}, 'eq': {a: 2, b: 2},
                        'gt': {a: 2, b: 1}}[val]
                 try:
